@@ -4,7 +4,8 @@ import MirProofs.Lemmas.PatternSpec
 
   Statements are about the model of the code as it is (`MirModel/Pattern.lean`): whenever the function returns
   (does not raise), the scores are in range — for every input, valid or not, and every threshold.
-  `standard_FPR`'s precision (and F) is NOT bounded by 1: the full statement is kept as a `def`, refuted by a
+  The first-n scores are scalars in [0,1] on every input (the 3-tuple on empty input was repaired in e3a7cc5).
+  `standard_FPR`'s precision (and F) is NOT bounded by 1 (not repaired): the full statement is kept as a `def`, refuted by a
   concrete witness, and the strongest true versions are proved (`standard_precision_bound`,
   `standard_precision_partial`).
 -/
@@ -56,16 +57,15 @@ theorem three_layer_range (ref est : Pats) (t : Rat × Rat × Rat) (h : threeLay
   · exact in01_zero
   · exact threeLayer_in01 ref est
 
-/-- first-n three-layer precision, whenever it is the documented scalar -/
+/-- first-n three-layer precision: one scalar in [0,1] on every input on which the function returns
+    (empty input included, where it is 0) -/
 theorem first_n_three_layer_range (ref est : Pats) (n : Int) (v : Rat)
-    (h : firstNThreeLayerP ref est n = .ok (.scalar v)) : 0 ≤ v ∧ v ≤ 1 := by
-  unfold firstNThreeLayerP at h
-  rw [validate_eq] at h
+    (h : firstNThreeLayerP ref est n = .ok v) : 0 ≤ v ∧ v ≤ 1 := by
+  rw [firstNThreeLayerP_eq] at h
   split at h
   · cases h
-  · rw [bind_ok] at h
-    split at h
-    · cases h
+  · split at h
+    · cases h; exact ⟨le_refl _, zero_le_one⟩
     · cases h3 : threeLayerFPR ref (firstN est n) with
       | error e => rw [h3] at h; cases h
       | ok t =>
@@ -73,22 +73,28 @@ theorem first_n_three_layer_range (ref est : Pats) (n : Int) (v : Rat)
         cases h
         exact (three_layer_range _ _ t h3).2.1
 
-/-- first-n target proportion recall, whenever it is the documented scalar -/
+/-- first-n target proportion recall: one scalar in [0,1] on every input on which the function returns -/
 theorem first_n_target_proportion_range (ref est : Pats) (n : Int) (v : Rat)
-    (h : firstNTargetProportionR ref est n = .ok (.scalar v)) : 0 ≤ v ∧ v ≤ 1 := by
-  unfold firstNTargetProportionR at h
-  rw [validate_eq] at h
+    (h : firstNTargetProportionR ref est n = .ok v) : 0 ≤ v ∧ v ≤ 1 := by
+  rw [firstNTargetProportionR_eq] at h
   split at h
   · cases h
-  · rw [bind_ok] at h
-    split at h
-    · cases h
+  · split at h
+    · cases h; exact ⟨le_refl _, zero_le_one⟩
     · cases h3 : establishmentFPR ref (firstN est n) with
       | error e => rw [h3] at h; cases h
       | ok t =>
         rw [h3] at h
         cases h
         exact (establishment_range _ _ t h3).2.2
+
+/-- on empty input (no point on one side) both first-n scores are the scalar 0 (repaired in e3a7cc5; the model's
+    result type `Py Rat` records that a scalar is returned on every path) -/
+theorem first_n_empty (ref est : Pats) (n : Int) (hv : (ref ++ est).any List.isEmpty = false)
+    (hz : isZero ref est = true) :
+    firstNThreeLayerP ref est n = .ok 0 ∧ firstNTargetProportionR ref est n = .ok 0 := by
+  rw [firstNThreeLayerP_eq, firstNTargetProportionR_eq, hv, hz]
+  exact ⟨rfl, rfl⟩
 
 /-- `standard_FPR`: recall is in [0,1], precision and F are non-negative -/
 theorem standard_recall_range (ref est : Pats) (tol : Rat) (t : Rat × Rat × Rat)
@@ -134,47 +140,17 @@ theorem standard_precision_partial (ref est : Pats) (tol : Rat) (t : Rat × Rat 
   · exact in01_zero
   · exact standard_in01 tol hlen
 
-/-- "every first-n score is a scalar" — FALSE of the unchanged code (3-tuple on empty input) -/
-def first_n_scalar_full_statement : Prop :=
-  ∀ (ref est : Pats) (n : Int) (o : Out),
-    (firstNThreeLayerP ref est n = .ok o ∨ firstNTargetProportionR ref est n = .ok o) → ∃ v, o = .scalar v
-
-theorem first_n_scalar_full_statement_false : ¬ first_n_scalar_full_statement := by
-  intro h
-  obtain ⟨v, hv⟩ := h [] [] 5 (.triple 0 0 0) (Or.inl (by decide +kernel))
-  cases hv
-
-/-- outside the empty-input region the first-n scores are scalars -/
-theorem first_n_scalar_partial (ref est : Pats) (n : Int) (o : Out) (hz : isZero ref est = false)
-    (h : firstNThreeLayerP ref est n = .ok o ∨ firstNTargetProportionR ref est n = .ok o) :
-    ∃ v, o = .scalar v := by
-  rcases h with h | h
-  · rw [firstNThreeLayerP_eq] at h
-    split at h
-    · cases h
-    · rw [hz] at h
-      simp only [Bool.false_eq_true, if_false] at h
-      cases h3 : threeLayerFPR ref (firstN est n) with
-      | error e => rw [h3] at h; cases h
-      | ok t => rw [h3] at h; cases h; exact ⟨_, rfl⟩
-  · rw [firstNTargetProportionR_eq] at h
-    split at h
-    · cases h
-    · rw [hz] at h
-      simp only [Bool.false_eq_true, if_false] at h
-      cases h3 : establishmentFPR ref (firstN est n) cardName with
-      | error e => rw [h3] at h; cases h
-      | ok t => rw [h3] at h; cases h; exact ⟨_, rfl⟩
-
 /-! non-vacuity -/
 example : ∃ t, establishmentFPR witnessRef witnessEst cardName = .ok t ∧ t = (2/3, 1, 1/2) :=
   ⟨_, by decide +kernel, rfl⟩
 example : ∃ t, occurrenceFPR witnessRef witnessEst (1/2) cardName = .ok t ∧ t = (1, 1, 1) :=
   ⟨_, by decide +kernel, rfl⟩
 example : ∃ t, threeLayerFPR witnessRef witnessEst = .ok t ∧ t = (2/3, 1, 1/2) := ⟨_, by decide +kernel, rfl⟩
-example : firstNThreeLayerP witnessRef witnessEst 5 = .ok (.scalar 1) ∧
-    firstNTargetProportionR witnessRef witnessEst 5 = .ok (.scalar (1/2)) ∧ isZero witnessRef witnessEst = false := by
+example : firstNThreeLayerP witnessRef witnessEst 5 = .ok 1 ∧
+    firstNTargetProportionR witnessRef witnessEst 5 = .ok (1/2) ∧ isZero witnessRef witnessEst = false := by
   decide +kernel
+example : ([] ++ witnessEst).any List.isEmpty = false ∧ isZero [] witnessEst = true ∧
+    firstNThreeLayerP [] witnessEst 5 = .ok 0 := by decide +kernel
 example : witnessEst.length ≤ witnessRef.length ∧ standardFPR witnessEst witnessRef defaultTol = .ok (2/3, 1/2, 1) := by
   decide +kernel
 example : cardScore [(0, 60), (1, 62)] [(1, 62)] = .ok (1/2) := by decide +kernel
